@@ -175,6 +175,10 @@ def obligations(tier, seed):
         picks = rnd.sample(n3, min(20, len(n3))) + rnd.sample(n4, min(22, len(n4)))
         plan = [(s, v) for k, s in enumerate(picks) for v in (("1.0", "1.1") if k % 3 == 0 else (("1.0",) if k % 3 == 1 else ("1.1",)))]
         plan += [(s, ("1.0", "1.1")[k % 2]) for k, s in enumerate(rnd.sample(n5, min(2, len(n5))))]
+        # substitution-group competition in both orders is always part of the quick tier (both versions: XSD 1.1 has its own
+        # element overlap test)
+        subst = [s for s in cat if S.shape_id(s) in ("(m | h)", "(h | m)", "(m, h)", "(h, m)")]
+        plan = [(s, v) for s in subst for v in ("1.0", "1.1")] + [(s, v) for s, v in plan if s not in subst]
         to = 400
     else:
         n5 = by_n.get(5, [])
